@@ -40,7 +40,8 @@ func getTestImages() map[string]*testImage {
 	}
 	testImages = map[string]*testImage{}
 	for id, l := range map[string]peLayout{
-		"I1": {bits: 64, lfanew: 64, secs: []peSec{{40, 2}, {24, 1}}, slack: 8, gappos: 1, trail: 5},
+		// I1 has a section without raw data that still carries a file pointer, placed first in file order
+		"I1": {bits: 64, lfanew: 64, secs: []peSec{{40, 3}, {0, 1}, {24, 2}}, slack: 8, gappos: 1, trail: 5, zptr: "pos"},
 		"I2": {bits: 32, lfanew: 128, secs: []peSec{{32, 1}}, slack: 0, gappos: 1, trail: 0},
 	} {
 		img := buildPE(l, "c02:"+id)
